@@ -105,6 +105,11 @@ int val(const std::string& s);
 inline int val(const std::vector<int>& v) { return v.empty() ? -1 : v.front(); }
 inline int val(trompeloeil::illegal_argument const&) { return 0; }
 
+// a plain clause uses its captured copy of a local in a non-const way (std::move(local)): the copy is const inside the
+// clause, so this must still copy, and every call must find the value of creation time there. Returns the snapshot value the
+// hooks log, or -999 when the captured copy no longer holds what it held when the expectation was created.
+template <class S> inline int snapm(int snap, int id, S&& s) { std::string taken(std::forward<S>(s)); return taken == std::to_string(1000 + id) ? snap : -999; }
+
 template <class T> inline const void* ad(const T& t) { return &t; }
 inline const void* ad(const std::unique_ptr<Tracked>& p) { return p.get(); }
 
